@@ -393,9 +393,8 @@ def isDashStop (r : Char) : Bool := D2V.Gen.ParserSites.dashStops.contains r
 def isKeyStop (r : Char) : Bool := D2V.Gen.ParserSites.keyStops.contains r
 def isEdgeGroupStop (r : Char) : Bool := D2V.Gen.ParserSites.edgeGroupStops.contains r
 
-/-- `parseUnquotedString`, given `parseSubstitution(false)` -/
-def parseUnquotedStringWith (parseSubst : P (Option T)) (inKey : Bool) : P (Option SBox) := do
-  let start ← getPos
+/-- the `...@` check at the head of `parseUnquotedString` -/
+def uqPrologue : P Unit := do
   let (s4, eof4) ← peekn 4
   rewind
   if !eof4 && s4 = ['.', '.', '.', '@'] then do
@@ -403,88 +402,96 @@ def parseUnquotedStringWith (parseSubst : P (Option T)) (inKey : Bool) : P (Opti
     let u16 := (← get).u16
     errorf p (p.advanceString ['.', '.', '.', '@'] u16)
       "unquoted strings cannot begin with ...@ as that's import spread syntax"
-  let st ← loop (σ := UQState) (fun st => do
-    match ← peek with
-    | none => pure (.inr st)
-    | some r =>
-      let inEdgeGroup := (← get).inEdgeGroup
-      if inEdgeGroup && r = ')' then do
-        match ← peekNotSpace with
-        | none => do rewind; pure (.inr st)
-        | some (r2, newlines) =>
-          if newlines > 0 then do rewind; pure (.inr st)
-          else if isEdgeGroupStop r2 then do
-            rewind; pure (.inr st)
-          else do
-            rewind
-            let _ ← peek
-            commit
-            let p ← getPos
-            pure (.inl { st with lastNonSpace := p, sb := st.sb.push r, rawb := st.rawb.push r })
-      else if isTop r then do rewind; pure (.inr st)
-      else do
-        -- the `if inKey { switch r … }` block: `.inl st` = return, `.inr (st, r)` = go on with (possibly replaced) r
-        let cont : UQState ⊕ (UQState × Char) ← (do
-          if !inKey then pure (.inr (st, r))
-          else if isKeyStop r then do rewind; pure (.inl st)
-          else if r = '-' then do
-            match ← peek with
-            | none => pure (.inl st)
-            | some r2 =>
-              if isDashStop r2 then do
-                rewind
-                let _ ← peek
-                commit
-                pure (.inl { st with sb := st.sb.push r, rawb := st.rawb.push r })
-              else if r2 = '-' || r2 = '>' || r2 = '*' then do rewind; pure (.inl st)
-              else pure (.inr ({ st with sb := st.sb.push r, rawb := st.rawb.push r }, r2))
-          else pure (.inr (st, r)) : P (UQState ⊕ (UQState × Char)))
-        match cont with
-        | .inl st => pure (.inr st)
-        | .inr (st, r) => do
-          let st ← (do
-            if r = '*' then
-              if st.sb.utf8ByteSize = 0 then
-                pure { st with pattern := patAppend st.pattern [[42]], lastPatternIndex := st.sb.utf8ByteSize + 1 }
-              else if st.lastPatternIndex > st.sb.utf8ByteSize then crash .sliceOOB
-              else
-                pure { st with pattern := patAppend st.pattern [st.sb.toUTF8.toList.drop st.lastPatternIndex, [42]],
-                               lastPatternIndex := st.sb.utf8ByteSize + 1 }
-            else pure st : P UQState)
+  else pure ()
+
+/-- one iteration of `parseUnquotedString`'s loop: `.inl st` = next iteration, `.inr st` = return -/
+def uqBody (parseSubst : P (Option T)) (inKey : Bool) (st : UQState) : P (UQState ⊕ UQState) := do
+  match ← peek with
+  | none => pure (.inr st)
+  | some r =>
+    let inEdgeGroup := (← get).inEdgeGroup
+    if inEdgeGroup && r = ')' then do
+      match ← peekNotSpace with
+      | none => do rewind; pure (.inr st)
+      | some (r2, newlines) =>
+        if newlines > 0 then do rewind; pure (.inr st)
+        else if isEdgeGroupStop r2 then do
+          rewind; pure (.inr st)
+        else do
+          rewind
+          let _ ← peek
           commit
           let p ← getPos
-          let st := if !isSpace r then { st with lastNonSpace := p } else st
-          if !inKey && r = '$' then do
-            match ← parseSubst with
-            | some subst =>
-              let cfg := (← get).cfg
-              let st := if st.sb.utf8ByteSize > 0 then
-                  { st with value := st.value ++ [(some st.sb, istr (some st.sb) (some st.rawb))], sb := "", rawb := "",
-                            lastPatternIndex := if cfg.patReset then 0 else st.lastPatternIndex }
-                else st
-              pure (.inl { st with value := st.value ++ [(none, isub subst)] })
-            | none => pure (.inl st)
-          else if r ≠ '\\' then pure (.inl { st with sb := st.sb.push r, rawb := st.rawb.push r })
-          else do
-            match ← read with
-            | none => do
-              let a ← posSub '\\'
-              let rp ← getReaderPos
-              errorf a rp "unfinished escape sequence"
-              pure (.inr st)
-            | some r2 =>
-              if r2 = '\n' then do
-                match ← peekNotSpace with
-                | none => do rewind; pure (.inr st)
-                | some (r3, newlines) =>
-                  if newlines > 0 then do rewind; pure (.inr st)
-                  else do
-                    commit
-                    replay r3
-                    pure (.inl st)
-              else
-                pure (.inl { st with sb := st.sb.push (decodeEscape r2), rawb := (st.rawb.push '\\').push r2 }))
-    { lastNonSpace := start }
+          pure (.inl { st with lastNonSpace := p, sb := st.sb.push r, rawb := st.rawb.push r })
+    else if isTop r then do rewind; pure (.inr st)
+    else do
+      -- the `if inKey { switch r … }` block: `.inl st` = return, `.inr (st, r)` = go on with (possibly replaced) r
+      let cont : UQState ⊕ (UQState × Char) ← (do
+        if !inKey then pure (.inr (st, r))
+        else if isKeyStop r then do rewind; pure (.inl st)
+        else if r = '-' then do
+          match ← peek with
+          | none => pure (.inl st)
+          | some r2 =>
+            if isDashStop r2 then do
+              rewind
+              let _ ← peek
+              commit
+              pure (.inl { st with sb := st.sb.push r, rawb := st.rawb.push r })
+            else if r2 = '-' || r2 = '>' || r2 = '*' then do rewind; pure (.inl st)
+            else pure (.inr ({ st with sb := st.sb.push r, rawb := st.rawb.push r }, r2))
+        else pure (.inr (st, r)) : P (UQState ⊕ (UQState × Char)))
+      match cont with
+      | .inl st => pure (.inr st)
+      | .inr (st, r) => do
+        let st ← (do
+          if r = '*' then
+            if st.sb.utf8ByteSize = 0 then
+              pure { st with pattern := patAppend st.pattern [[42]], lastPatternIndex := st.sb.utf8ByteSize + 1 }
+            else if st.lastPatternIndex > st.sb.utf8ByteSize then crash .sliceOOB
+            else
+              pure { st with pattern := patAppend st.pattern [st.sb.toUTF8.toList.drop st.lastPatternIndex, [42]],
+                             lastPatternIndex := st.sb.utf8ByteSize + 1 }
+          else pure st : P UQState)
+        commit
+        let p ← getPos
+        let st := if !isSpace r then { st with lastNonSpace := p } else st
+        if !inKey && r = '$' then do
+          match ← parseSubst with
+          | some subst =>
+            let cfg := (← get).cfg
+            let st := if st.sb.utf8ByteSize > 0 then
+                { st with value := st.value ++ [(some st.sb, istr (some st.sb) (some st.rawb))], sb := "", rawb := "",
+                          lastPatternIndex := if cfg.patReset then 0 else st.lastPatternIndex }
+              else st
+            pure (.inl { st with value := st.value ++ [(none, isub subst)] })
+          | none => pure (.inl st)
+        else if r ≠ '\\' then pure (.inl { st with sb := st.sb.push r, rawb := st.rawb.push r })
+        else do
+          match ← read with
+          | none => do
+            let a ← posSub '\\'
+            let rp ← getReaderPos
+            errorf a rp "unfinished escape sequence"
+            pure (.inr st)
+          | some r2 =>
+            if r2 = '\n' then do
+              match ← peekNotSpace with
+              | none => do rewind; pure (.inr st)
+              | some (r3, newlines) =>
+                if newlines > 0 then do rewind; pure (.inr st)
+                else do
+                  commit
+                  replay r3
+                  pure (.inl st)
+            else
+              pure (.inl { st with sb := st.sb.push (decodeEscape r2), rawb := (st.rawb.push '\\').push r2 })
+
+/-- `parseUnquotedString`, given `parseSubstitution(false)` -/
+def parseUnquotedStringWith (parseSubst : P (Option T)) (inKey : Bool) : P (Option SBox) := do
+  let start ← getPos
+  uqPrologue
+  let st ← loop (uqBody parseSubst inKey) { lastNonSpace := start }
   pure (finishUnquoted start st)
 
 
@@ -1129,18 +1136,17 @@ def parseValueBody (isNum : String → Bool) (pv : P VBox) : P VBox := do
         | some sb =>
           if sb.kind ≠ .uq then pure (strVBox sb)
           else
-            let s := sb.scalar
-            if equalFoldKw s "null" then pure ⟨.null, .node "null" sb.range [], "null", true, false, none⟩
-            else if equalFoldKw s "suspend" then
+            if equalFoldKw sb.scalar "null" then pure ⟨.null, .node "null" sb.range [], "null", true, false, none⟩
+            else if equalFoldKw sb.scalar "suspend" then
               pure ⟨.susp, .node "susp" sb.range [("v", .bool true)], "suspension", true, false, none⟩
-            else if equalFoldKw s "unsuspend" then
+            else if equalFoldKw sb.scalar "unsuspend" then
               pure ⟨.susp, .node "susp" sb.range [("v", .bool false)], "suspension", true, false, none⟩
-            else if equalFoldKw s "true" then
+            else if equalFoldKw sb.scalar "true" then
               pure ⟨.bool, .node "bool" sb.range [("v", .bool true)], "boolean", true, false, none⟩
-            else if equalFoldKw s "false" then
+            else if equalFoldKw sb.scalar "false" then
               pure ⟨.bool, .node "bool" sb.range [("v", .bool false)], "boolean", true, false, none⟩
-            else if isNum s then
-              pure ⟨.num, .node "num" sb.range [("raw", .str s)], "number", true, false, none⟩
+            else if isNum sb.scalar then
+              pure ⟨.num, .node "num" sb.range [("raw", .str sb.scalar)], "number", true, false, none⟩
             else pure (strVBox sb)
 
 /-- `parseValue` with the nesting bounded by `n` -/
@@ -1159,31 +1165,29 @@ def fuelFor (runes : List Char) : Nat := runes.length + 4
 def runP (u16 : Bool) (cfg : Cfg) (runes : List Char) (f : P α) : Except Crash (α × PState) :=
   f (PState.init u16 cfg runes (fuelFor runes))
 
+/-- what an entry point hands back: the node (if any) and the error list, or the crash -/
+def finishRun {α : Type} (x : Except Crash (α × PState)) (g : α → Option T) : Except Crash Outcome :=
+  match x with
+  | .ok (a, s) => .ok ⟨g a, s.errs.toList⟩
+  | .error c => .error c
+
 /-- `Parse(path, r, opts)` on the bytes `bs` -/
 def parseFile (cfg : Cfg) (isNum : String → Bool) (bs : List UInt8) (u16opt : Bool) : Except Crash Outcome :=
-  let (runes, u16) := entryRunes bs u16opt
-  match runP u16 cfg runes (parseMap (parseValueN isNum (fuelFor runes)) true) with
-  | .ok (m, s) => .ok ⟨some m, s.errs.toList⟩
-  | .error c => .error c
+  finishRun (runP (entryRunes bs u16opt).2 cfg (entryRunes bs u16opt).1
+    (parseMap (parseValueN isNum (fuelFor (entryRunes bs u16opt).1)) true)) some
 
 /-- `ParseKey(key)` (strings.Reader: same rune decoding; positions in UTF-8) -/
 def parseKeyEntry (cfg : Cfg) (bs : List UInt8) : Except Crash Outcome :=
-  match runP false cfg (runesOf bs) parseKey with
-  | .ok (k, s) => .ok ⟨k.map KP.json, s.errs.toList⟩
-  | .error c => .error c
+  finishRun (runP false cfg (runesOf bs) parseKey) (fun k => k.map KP.json)
 
 /-- `ParseMapKey(mapKey)` -/
 def parseMapKeyEntry (cfg : Cfg) (isNum : String → Bool) (bs : List UInt8) : Except Crash Outcome :=
-  let runes := runesOf bs
-  match runP false cfg runes (parseMapKey (parseValueN isNum (fuelFor runes))) with
-  | .ok (k, s) => .ok ⟨k.map fun (mk, stop) => mk.json stop, s.errs.toList⟩
-  | .error c => .error c
+  finishRun (runP false cfg (runesOf bs) (parseMapKey (parseValueN isNum (fuelFor (runesOf bs)))))
+    (fun k => k.map fun x => x.1.json x.2)
 
 /-- `ParseValue(value)` -/
 def parseValueEntry (cfg : Cfg) (isNum : String → Bool) (bs : List UInt8) : Except Crash Outcome :=
-  let runes := runesOf bs
-  match runP false cfg runes (parseValueN isNum (fuelFor runes)) with
-  | .ok (v, s) => .ok ⟨if v.kind = .none then none else some v.json, s.errs.toList⟩
-  | .error c => .error c
+  finishRun (runP false cfg (runesOf bs) (parseValueN isNum (fuelFor (runesOf bs))))
+    (fun v => if v.kind = .none then none else some v.json)
 
 end D2V.Text
